@@ -27,7 +27,14 @@ def cases(draw, tier):
     kind = draw(st.sampled_from(["count", "count", "int", "posdyadic",
                                  "dyadic"]))
     spec = draw(gen.table_specs(tier, values=kind, md=True, history=True))
-    return {"table": spec, "op": draw(alphabet.op_strategy())}
+    op = draw(alphabet.op_strategy())
+    if op["op"] in ("filter", "transform", "rankdata", "norm") and \
+            draw(st.booleans()):
+        # kernels that walk the stored entries: let them find the indices a
+        # reordering leaves behind
+        spec["history"] = spec["history"] + [{
+            "op": "sort", "axis": draw(ops.AX), "key": draw(ops.KEY)}]
+    return {"table": spec, "op": op}
 
 
 def strategy(tier):
